@@ -45,7 +45,7 @@ def parse_mir(text):
         ln = lines[i]
         if ln.startswith('// MIR FOR CTFE'): ctfe_next = True; i += 1; continue
         m = re.match(r'^fn (.*?)\((.*)\) -> (.*) \{$', ln)
-        m2 = re.match(r'^(?:const|static) (?:mut )?(.*?): (.*?) = (.*)$', ln)
+        m2 = re.match(r'^(?:const|static) (?:mut )?((?:<impl at [^>]*>)?.*?): (.*?) = (.*)$', ln)
         m3 = re.match(r'^(alloc\w+) \((?:static: (\w+), )?size: (\d+), align: \d+\) \{', ln)
         if m or (m2 and m2.group(3) == '{'):
             if m:
